@@ -67,7 +67,7 @@ def _stage(draw, idx, ctr, kinds):
     for s in FSLOTS:
         if draw(st.integers(0, 2)) == 0 and not first:
             continue
-        c = draw(st.integers(0, 9))
+        c = draw(st.integers(0, 11))
         fk = kinds[s]
         if c <= 3:
             ctr['id'] += 1
@@ -81,6 +81,15 @@ def _stage(draw, idx, ctr, kinds):
             w[s] = ['placeholder', draw(st.sampled_from(['{}', 'required', 'scalar']))]
         elif c == 8:
             w[s] = ['del']
+        elif c == 9:
+            # a list merged onto a function node supplies new positional arguments (the node itself is promoted over the list)
+            ms = []
+            for _ in range(draw(st.integers(0, 2))):
+                ctr['m'] += 1
+                ms.append(ctr['m'])
+            w[s] = ['arglist', ms]
+        elif c == 10:
+            w[s] = ['delargs', draw(_args(ctr))]
         else:
             ctr['id'] += 1
             w[s] = [fk, ctr['id'], []]
@@ -143,7 +152,7 @@ def _case(draw):
             if ks:
                 s_['tags'][ks[draw(st.integers(0, len(ks) - 1))]] = True
         else:
-            cands = [a for w in s_['writes'].values() if w[0] in ('call', 'bind', 'args') for a in (w[2] if w[0] != 'args' else w[1])]
+            cands = [a for w in s_['writes'].values() if w[0] in ('call', 'bind', 'args', 'delargs') for a in (w[2] if w[0] in ('call', 'bind') else w[1])]
             if cands:
                 a = cands[draw(st.integers(0, len(cands) - 1))]
                 a[2] = True
@@ -176,6 +185,10 @@ def _write_node(w, tagged):
         n = tdoc.mp([(a, _arg_node(sp, u)) for a, sp, u in w[2]], flow=True, tag=f'!{k}:vfrec.call_{w[1]}')
     elif k == 'args':
         n = tdoc.mp([(a, _arg_node(sp, u)) for a, sp, u in w[1]], flow=True)
+    elif k == 'arglist':
+        n = tdoc.sq([tdoc.sc(m) for m in w[1]], flow=True)
+    elif k == 'delargs':
+        n = tdoc.mp([(a, _arg_node(sp, u)) for a, sp, u in w[1]], flow=True, **{'del': True})
     elif k == 'name':
         n = tdoc.sc(f'vfrec.call_{w[1]}')
     elif k == 'placeholder':
@@ -259,8 +272,11 @@ def provenance(case):
             if k in ('call', 'bind'):
                 id_taint[w[1]] = t
                 args_taint(w[2], t)
-            elif k == 'args':
+            elif k in ('args', 'delargs'):
                 args_taint(w[1], t)
+            elif k == 'arglist':
+                for m in w[1]:
+                    marker_taint[m] = t
             elif k in ('name', 'eval', 'fstr', 'import'):
                 id_taint[w[1]] = t
             elif k in ('scalar', 'lit'):
@@ -280,7 +296,22 @@ def fix_required(case):
                 last = st_['writes'][s]
         if last is not None and last == ['placeholder', 'required']:
             last[1] = '{}'
-    # nor may it sit below anything else that survives: a later 'args' mapping merged onto !required replaces it, fine
+    # a list is only written onto an existing function node (onto anything else it would simply be a list, and a later
+    # function node merged onto a list is a mapping-onto-list MergeError: C02 territory)
+    for s in FSLOTS:
+        state = 'none'
+        for st_ in case['stages']:
+            w = st_['writes'].get(s)
+            if w is None:
+                continue
+            if w[0] == 'arglist' and state != 'fn':
+                w[:] = ['args', []]
+            if w[0] in ('call', 'bind'):
+                state = 'fn'
+            elif w[0] in ('args', 'arglist', 'delargs', 'name'):
+                state = 'fn' if state == 'fn' else 'other'
+            else:
+                state = 'none' if w[0] == 'del' else 'other'
     return case
 
 
